@@ -17,10 +17,11 @@ RULE = (
     "copy; empty sides; disjoint and overlapping sparse key sets; b optionally built with its Label keys in the "
     "opposite order and / or declared with plain Count() where a has Count(transform); b optionally an immutable JSON reload, which is what "
     "fill.sparksql merges with `self += Factory.fromJson(...)`), and a continuation of further fills of a and of b.  "
-    "Oracle: ref = a + b first; `a += b` returns a itself; a's document equals ref's bit for bit; b's document is "
+    "In an eighth of the cases the right operand is a itself (a += a must equal a + a).  Oracle: ref = a + b first; `a += b` returns a itself; a's document equals ref's bit for bit; b's document is "
     "unchanged; the sets of fillable-node / container identities of a and b are disjoint; after the continuation a "
     "equals ref given the same extra fills and b equals a twin of b given b's extra fills.  Non-trivial: both sides "
-    "non-empty, >= 1 sparse key / bag value present on exactly one side, and the continuation fills b; distinct by "
+    "non-empty, >= 1 sparse key / bag value present on exactly one side, and the continuation fills b - or a non-empty "
+    "a += a case; distinct by "
     "sha1 of the case."
 )
 ASSUMPTIONS = [
@@ -49,7 +50,9 @@ def strategy(tier):
         b_relabel = draw(st.integers(0, 2)) == 0
         # ... or declared with plain Count() where a has Count(transform): what comes back from JSON looks like that
         b_plain = draw(st.integers(0, 2)) == 0
-        return {"spec": spec, "a": ra, "b": rb, "more_a": [[r, w] for r, w in xa], "more_b": [[r, w] for r, w in xb], "b_relabel": b_relabel, "b_plain": b_plain}
+        return {"spec": spec, "a": ra, "b": rb, "more_a": [[r, w] for r, w in xa], "more_b": [[r, w] for r, w in xb], "b_relabel": b_relabel, "b_plain": b_plain,
+                # the same object on both sides: a += a must equal a + a
+                "b_is_a": draw(st.integers(0, 7)) == 0}
 
     return cases()
 
@@ -80,6 +83,16 @@ def check(case):
     dref = doc(ref)
     require(norm.same(da0, doc(a), norm.BITEXACT) and norm.same(db0, doc(b), norm.BITEXACT), "plus-mutated-operand", "a + b changed an operand")
 
+    if case.get("b_is_a"):
+        ref2 = a + a
+        d2 = doc(ref2)
+        r = operator.iadd(a, a)
+        require(r is a, "iadd-not-self", f"a += a returned {type(r).__name__} which is not a")
+        d = norm.diff(d2, doc(a), norm.BITEXACT)
+        require(not d, "iadd-self-differs-from-add", lambda: f"a += a vs a + a: {norm.fmt(d)}", {"rhs": "self"})
+        walk.require_views(a, "a after a += a")
+        labels = ["kind:" + k for k in kinds(spec)] + ["rhs-is-lhs"]
+        return {"nontrivial": bool(da0["entries"] > 0), "labels": labels}
     r = operator.iadd(a, b)
     require(r is a, "iadd-not-self", f"a += b returned {type(r).__name__} which is not a")
     walk.require_views(a, "a after a += b")
